@@ -23,11 +23,11 @@ if os.path.exists(os.path.join(vlib.LEAN_DIR, "Yarel", "Props", "C14.lean")):
     REQUIRED_THEOREMS = ["import_loaded_does_not_rerun", "import_loading_is_circular", "import_missing_is_error", "import_uncompilable_is_error",
                          "raise_keeps_registry", "body_at_most_once", "same_object", "cycle_reported", "globals_private"]
 # who writes the state the mechanism models are about: the set of write sites per group of fields, regenerated on every run (Props/StateWrites)
-THEOREM_MODULES.append("Yarel.Props.StateWrites")
+THEOREM_MODULES.append("Yarel.Props.StateWrites.writers_of_module_registry")
 REQUIRED_THEOREMS += ['writers_of_module_registry']
 # the functions around the module registry as written on this run (Props/GlueText): the text the module model was written against
-THEOREM_MODULES.append("Yarel.Props.GlueText")
-REQUIRED_THEOREMS += ['start_import_as_modelled', 'finish_import_as_modelled', 'module_lookup_as_modelled']
+THEOREM_MODULES.append("Yarel.Props.GlueText.C14")
+REQUIRED_THEOREMS += ['start_import_impl_as_modelled', 'finish_import_impl_as_modelled', 'module_as_modelled']
 LEVEL = "proof"
 ASSUMPTIONS = [
     "registry model Yarel/Model/Modules.lean transcribes start_import_impl/finish_import_impl (tie: replay of real import events)",
